@@ -13,6 +13,7 @@ pub mod c07;
 pub mod c08;
 pub mod c09;
 pub mod c10;
+pub mod c10_sys;
 pub mod c11;
 pub mod c11_sys;
 pub mod c12;
